@@ -16,6 +16,14 @@ DETECTION = {
  "S10": ("C13", "quick", "insert a line above an item with diagnostics, query, compare: stale line/column"),
  "S11": ("C13", "quick", "swap_adjacent_lines of two struct members in one edit: Sierra keeps the old member order; missed before the adjacent-swap edit kinds existed (then 2 of 3 seeds with 96 histories, and the default quick run)"),
  "S12": ("C13", "quick", "disk write under an override, unset: incremental database keeps the first-read content"),
+ "S13": ("C03", "quick", "generated downcast instantiation (below-only, positive lower bound) + flipped TestLessThan"),
+ "S14": ("C03", "quick", "missed at first (quick and 240 s thorough): no target range ending exactly at 2^128-1; caught after the generator draws half of its endpoints from the switch values (0, 2^128-1, 2^128, signed bounds) and bounded.cairo got dc_felt_upper_at_rc_bound"),
+ "S15": ("C03", "quick", "thorough only at first; quick after the generator got standard integer sources and bounded.cairo got dc_i8_below_only_neg"),
+ "S16": ("C13", "quick", "missed at first (no item with a deprecated/unstable note, no edit inside string literals); caught after basic/src/util.cairo got #[deprecated(note)] / #[unstable(note)] items used from lib.cairo and the edit kind edit_string_literal"),
+ "S17": ("C13", "thorough", "missed at first; the check can see it (manual history: move one space inside array![..] around an undefined name => stale column) but the default mix rarely produced that edit; after shift_space_in_line (double weight, prefers macro-call lines, string-literal aware), macro-error lines in the errors project and the small macros project, thorough reports it in its first batch (96 histories of <= 30 steps); the 48 short histories of quick still miss it"),
+ "S18": ("C13", "quick", "declare_new_module / swap_adjacent_items put a mod line above another one: module order follows intern ids"),
+ "S19": ("C12", "quick", "level 1 (2 workers, no prefix) and level 2: the warm-up task raises the shared flag before the reporter runs, lowering diagnostics of the errors project disappear"),
+ "S20": ("C12", "missed", "NOT detected. A process-wide static std Mutex taken with try_lock around a pure computation: contention needs an OS preemption inside a critical section that contains no synchronisation point shuttle controls (level 2 interleaves only at salsa's sync points; level 1 tasks are atomic). Before level-1 runs were isolated in child processes the harness's own worker threads contended on that static and produced a difference that did not replay (reported as a harness error, exit 2) - which is why every run now executes in its own process."),
 }
 for d in sorted(glob.glob(os.path.join(ROOT, "seeded", "S*"))):
     sid = os.path.basename(d)[:3]
